@@ -10,7 +10,11 @@ least two symbols) and D8 (`accum - 1 >= total - 1` in wrapping arithmetic).
 Modelling notes
 * the two `usize` counters (`laps_or_zeros`, `num_explicit_probabilities`) are unbounded
   `Nat`s: overflowing them needs `2^64` iterations of the loop;
-* the symbol iterator is either `core::iter::repeat(x)` or a finite list.
+* the symbol iterator is either `core::iter::repeat(x)` or a finite list;
+* an item of `probabilities` is *one* `Nat`: since the D30 repair the code calls
+  `probability.borrow()` exactly once per item and uses that value both for the validation and
+  for `operation` (before, an item type with an unstable `Borrow` impl could hand `operation`
+  another value than the validated one; the oracle exercises such item types).
 -/
 namespace CV.Cat
 
